@@ -255,6 +255,30 @@ def long_case(case):
     return {"violations": []}
 
 
+def big_case(case):
+    """a short trajectory relabelled onto the highest cell indices of a very large grid (sparse comparison)"""
+    nc, tau, noncorr, base = case["cells"], case["tau"], case["noncorr"], case["traj"]
+    labels = [nc - 1, 3, nc - 2, nc // 2 + 1]
+    traj = np.array([np.nan if x is None else labels[x] for x in base], dtype=float)
+    small = np.array([np.nan if x is None else x for x in base], dtype=float)
+    key = f"C12|big|cells={nc}|traj={tstr(base)}|tau={tau}|{'noncorr' if noncorr else 'sliding'}"
+    E, _rows = model_matrix(base, tau, noncorr, 4)
+    try:
+        T = MSM(traj, total_num_cells=nc).get_one_tau_transition_matrix(tau, noncorrelated_windows=noncorr)
+        Tc = T.tocsr() if hasattr(T, "tocsr") else T
+        if tuple(Tc.shape) != (nc, nc):
+            return {"violations": [viol(key + "|shape", "wrong shape", case, observed=list(Tc.shape))]}
+        sub = np.asarray(Tc[labels][:, labels].toarray(), dtype=float)
+        outside = float(abs(Tc).sum() - np.abs(sub).sum())
+    except Exception as e:
+        return {"violations": [viol(key + "|raises", f"{type(e).__name__}: {str(e)[:100]}", case)]}
+    if not np.allclose(sub, np.asarray(E, dtype=float), rtol=0, atol=1e-12) or abs(outside) > 1e-9:
+        return {"violations": [viol(key + "|entries", "transition matrix on a very large grid differs from the counting "
+                                    "model of the same trajectory on the visited cells (or has mass on unvisited cells)",
+                                    case, expected=np.asarray(E).tolist(), observed=sub.tolist())]}
+    return {"violations": []}
+
+
 def run(ctx):
     rep = Report(PROPERTY, "model_checking")
     if ctx.thorough:
@@ -282,7 +306,14 @@ def run(ctx):
            for tau, nonc in ((1, False), (7, False), (7, True))]
     for r in ctx.pmap(long_case, lcs, chunksize=1, recheck=0):
         rep.add_violations(r["violations"])
+    bcs = [{"big": True, "cells": nc, "tau": tau, "noncorr": nonc, "traj": tr}
+           for nc in ((46341, 70000, 3000000) if not ctx.thorough else (32768, 46341, 65536, 70000, 92682, 3000000))
+           for tau, nonc in ((1, False), (2, True))
+           for tr in ([0, 1, 0, 2, 2, 3, None, 1, 0], [2, 0, 0, 1, 3, 3, 0, 2])]
+    for r in ctx.pmap(big_case, bcs, chunksize=1, recheck=0):
+        rep.add_violations(r["violations"])
     rep.coverage = {
+        "very_large_grids": len(bcs),
         "long_trajectories": len(lcs),
         "states": states, "transitions": trans, "traces_validated_against_impl": trans,
         "samples": samples, "evaluations": trans, "distinct_nontrivial": dobs,
@@ -298,6 +329,8 @@ def run(ctx):
 
 
 def replay(case):
+    if case.get("big"):
+        return big_case(case)["violations"]
     if case.get("long"):
         return long_case(case)["violations"]
     traj = case["traj"]
